@@ -198,3 +198,184 @@ Proof.
   all: assert (Hnn : s2 :: r2 <> []) by discriminate.
   all: destruct (getf_ext_dir p root (s2 :: r2) v Gv Hnn) as [a1 [k1 L1]]; rewrite L1 in L; discriminate.
 Qed.
+
+(* ---------- the other operations leave every file as it was, or remove exactly one *)
+Lemma kfind_kdel_other : forall k s s', s' <> s -> kfind (kdel k s) s' = kfind k s'.
+Proof.
+  induction k as [|[m t] r IH]; intros s s' Hne; cbn [kdel kfind]; [reflexivity|].
+  destruct (String.eqb m s) eqn:E.
+  - apply String.eqb_eq in E. subst m. destruct (String.eqb s s') eqn:E2; [apply String.eqb_eq in E2; congruence|reflexivity].
+  - cbn [kfind]. destruct (String.eqb m s'); [reflexivity|apply IH; exact Hne].
+Qed.
+
+Lemma kfind_kdel_same : forall k s, (forall m t, In (m, t) k -> True) -> kfind (kdel k s) s = kfind (kdel k s) s.
+Proof. reflexivity. Qed.
+
+Lemma delp_single : forall a k s, delp (ND a k) [s] = ND a (kdel k s).
+Proof. reflexivity. Qed.
+Lemma delp_deeper : forall a k s s2 r, delp (ND a k) (s :: s2 :: r) = match kfind k s with Some c => ND a (kput k s (delp c (s2 :: r))) | None => ND a k end.
+Proof. reflexivity. Qed.
+Lemma delp_file : forall bl a p, delp (NF bl a) p = NF bl a.
+Proof. intros bl a [|s [|s2 r]]; reflexivity. Qed.
+
+Lemma getf_delp_apart : forall p t p', (forall r, p' <> p ++ r) -> getf (delp t p) p' = getf t p'.
+Proof.
+  induction p as [|s r0 IH]; intros t p' Hn; [exfalso; apply (Hn p'); reflexivity|].
+  destruct t as [bl a|a k]; [rewrite delp_file; reflexivity|].
+  destruct r0 as [|s2 r2].
+  - rewrite delp_single. destruct p' as [|s' r']; [reflexivity|]. rewrite !getf_dir_cons.
+    destruct (string_dec s' s) as [E|E]; [subst s'; exfalso; apply (Hn r'); reflexivity|]. rewrite kfind_kdel_other by exact E. reflexivity.
+  - rewrite delp_deeper. destruct (kfind k s) as [c|] eqn:F; [|reflexivity].
+    destruct p' as [|s' r']; [reflexivity|]. rewrite !getf_dir_cons.
+    destruct (string_dec s' s) as [E|E].
+    + subst s'. rewrite kfind_kput_same, F. apply IH. intros r H. apply (Hn r). cbn. rewrite H. reflexivity.
+    + rewrite kfind_kput_other by exact E. reflexivity.
+Qed.
+
+Lemma getf_below_empty : forall a r, getf (ND a []) r = None.
+Proof. intros a [|s r]; reflexivity. Qed.
+
+(* the kids lists of the model hold one entry per name (kput replaces): removing the name removes the entry *)
+Fixpoint names_once (t : node) : Prop :=
+  match t with
+  | NF _ _ => True
+  | ND _ k => (fix go (k : list (string * node)) : Prop :=
+                 match k with [] => True | (m, c) :: r => kfind r m = None /\ names_once c /\ go r end) k
+  end.
+
+Lemma kfind_kdel_gone : forall k s, (fix go (k : list (string * node)) : Prop :=
+     match k with [] => True | (m, c) :: r => kfind r m = None /\ names_once c /\ go r end) k -> kfind (kdel k s) s = None.
+Proof.
+  induction k as [|[m t] r IH]; intros s H; [reflexivity|]. destruct H as [H1 [H2 H3]]. cbn [kdel].
+  destruct (String.eqb m s) eqn:E.
+  - apply String.eqb_eq in E. subst m. exact H1.
+  - cbn [kfind]. rewrite E. apply IH. exact H3.
+Qed.
+
+(* rewriting the attributes of a directory leaves every file as it was *)
+Lemma getf_setp_dir_attrs : forall p t a k a' p', lookp t p = L_node (ND a k) -> getf (setp t p (ND a' k)) p' = getf t p'.
+Proof.
+  induction p as [|s r0 IH]; intros t a k a' p' L.
+  - cbn in L. inversion L; subst t. cbn [setp]. destruct p' as [|s' r']; [reflexivity|]. rewrite !getf_dir_cons. reflexivity.
+  - destruct t as [bl a0|a0 k0]; [cbn in L; discriminate|]. cbn [lookp] in L. destruct (kfind k0 s) as [c|] eqn:F; [|discriminate].
+    cbn [setp]. rewrite F. destruct p' as [|s' r']; [reflexivity|]. rewrite !getf_dir_cons.
+    destruct (string_dec s' s) as [E|E].
+    + subst s'. rewrite kfind_kput_same, F. apply (IH c a k a' r' L).
+    + rewrite kfind_kput_other by exact E. reflexivity.
+Qed.
+
+Lemma getf_setp_newdir : forall p t a p', (lookp t p = L_noent \/ lookp t p = L_notdir) -> getf (setp t p (ND a [])) p' = getf t p'.
+Proof.
+  intros p t a p' L. destruct (prefix_cases p p') as [[r Hr]|Hn].
+  - subst p'. rewrite getf_setp_below; [symmetry; apply lookp_none_ext; exact L|apply getf_below_empty|apply lookp_none_ext; exact L].
+  - apply getf_setp_apart. exact Hn.
+Qed.
+
+(* ---------- every operation but DeleteObject, as a step on the abstract map from file keys to what is stored *)
+Definition amap := list string -> option (nat * attrs).
+Fixpoint path_eqb (a b : list string) : bool :=
+  match a, b with [], [] => true | x :: a', y :: b' => String.eqb x y && path_eqb a' b' | _, _ => false end.
+Lemma path_eqb_eq : forall a b, path_eqb a b = true <-> a = b.
+Proof.
+  induction a as [|x a IH]; intros [|y b]; cbn; split; intros H; try reflexivity; try discriminate.
+  - apply andb_true_iff in H. destruct H as [H1 H2]. apply String.eqb_eq in H1. apply IH in H2. subst. reflexivity.
+  - inversion H; subst. rewrite String.eqb_refl. apply IH. reflexivity.
+Qed.
+Definition upd (m : amap) (p : list string) (v : option (nat * attrs)) : amap := fun q => if path_eqb q p then v else m q.
+Definition put_attrs (blob : nat) (ctype : string) (meta : attrs) : attrs :=
+  ("etag", etag_of blob) :: (if String.eqb ctype "" then [] else [("content-type", ctype)]) ++ meta_attrs meta.
+
+Definition astep (m : amap) (o : op) (ob : obs) : amap :=
+  match o, ob with
+  | PutObject b key blob len ctype meta, O_ok => if ends_slash key then m else upd m (b :: segs key) (Some (blob, put_attrs blob ctype meta))
+  | _, _ => m
+  end.
+
+Definition is_delete (o : op) : bool := match o with DeleteObject _ _ => true | _ => false end.
+
+Lemma abs_step : forall root m o, is_delete o = false -> (forall q, m q = getf root q) ->
+  forall q, astep m o (snd (step root o)) q = getf (fst (step root o)) q.
+Proof.
+  intros root m o Hd Hm q. destruct o as [b|b key blob len ctype meta|b key|b key|b pre dl af mx]; try discriminate.
+  - (* CreateBucket *)
+    cbn [step astep]. destruct (lookp root [b]) as [n| |] eqn:L; cbn [fst snd]; try apply Hm.
+    rewrite getf_setp_newdir by (left; exact L). apply Hm.
+  - (* PutObject *)
+    destruct (step root (PutObject b key blob len ctype meta)) as [root' ob] eqn:S. cbn [fst snd].
+    destruct ob; try (cbn [astep]; cbn [step] in S;
+      repeat match type of S with context [if ?c then _ else _] => destruct c end;
+      repeat match type of S with context [match ?x with _ => _ end] => destruct x end; inversion S; subst; apply Hm; fail).
+    cbn [astep]. destruct (ends_slash key) eqn:Es.
+    + (* a directory object: files untouched *)
+      cbn [step] in S. destruct (valid_object_name key); cbn [negb] in S; [|inversion S].
+      destruct (bucket_ok root b); cbn [negb] in S; [|inversion S]. rewrite Es in S.
+      destruct (negb (Nat.eqb len 0)); [inversion S|].
+      match type of S with context [mkdir_all ?f ?t ?p] => destruct (mkdir_all f t p) as [r1|] eqn:M end; [|inversion S].
+      destruct (lookp r1 (b :: segs key)) as [[bl a|a k]| |] eqn:L; try (inversion S; fail).
+      match type of S with (setp r1 ?p (ND ?a' k), O_ok) = _ => assert (Er : root' = setp r1 p (ND a' k)) by congruence end. rewrite Er.
+      rewrite (getf_setp_dir_attrs _ _ a k _ q L), (getf_mkdir_all _ _ _ _ q M). apply Hm.
+    + (* a file object: its own key reads the upload, every other key as before *)
+      unfold upd. destruct (path_eqb q (b :: segs key)) eqn:Eq.
+      * apply path_eqb_eq in Eq. subst q. symmetry.
+        cbn [step] in S. destruct (valid_object_name key) eqn:V; cbn [negb] in S; [|inversion S].
+        destruct (bucket_ok root b) eqn:B; cbn [negb] in S; [|inversion S]. rewrite Es in S.
+        destruct (lookp root (b :: segs key)) as [[bl0 a0|a0 k0]| |] eqn:L; try (inversion S; fail).
+        all: match type of S with context [mkdir_all ?f ?t ?p] => destruct (mkdir_all f t p) as [r1|] eqn:M end; [|inversion S].
+        all: match type of S with (setp ?rr ?pp ?x, O_ok) = _ => assert (Er : root' = setp rr pp x) by congruence end; rewrite Er.
+        all: unfold getf; rewrite lookp_setp; [reflexivity|discriminate|eapply mkdir_all_dir; exact M].
+      * assert (Hq : q <> b :: segs key) by (intros E; apply path_eqb_eq in E; congruence).
+        (* the frame theorem is stated on GetObject answers; here the same argument on getf *)
+        cbn [step] in S. destruct (valid_object_name key) eqn:V; cbn [negb] in S; [|inversion S].
+        destruct (bucket_ok root b) eqn:B; cbn [negb] in S; [|inversion S]. rewrite Es in S.
+        set (p := b :: segs key) in *.
+        destruct (lookp root p) as [[bl0 a0|a0 k0]| |] eqn:L; try (inversion S; fail).
+        all: set (r0 := match lookp root [b; ".sgwtmp"] with L_noent => setp root [b; ".sgwtmp"] (ND [] []) | _ => root end) in *.
+        all: match type of S with context [mkdir_all ?f ?t ?pp] => destruct (mkdir_all f t pp) as [r1|] eqn:M end; [|inversion S].
+        all: match type of S with (setp ?rr ?pp ?x, O_ok) = _ => assert (Er : root' = setp rr pp x) by congruence end; clear S; rewrite Er; clear Er.
+        all: assert (G0 : getf r0 q = getf root q)
+               by (unfold r0; destruct (lookp root [b; ".sgwtmp"]) as [n| |] eqn:Lt; [reflexivity|apply getf_setp_newdir; left; exact Lt|reflexivity]).
+        all: assert (G1 : getf r1 q = getf root q) by (rewrite (getf_mkdir_all _ _ _ _ q M); exact G0).
+        all: rewrite Hm.
+        all: destruct (prefix_cases p q) as [[r2 Hr2]|Hn]; [|rewrite getf_setp_apart by exact Hn; symmetry; exact G1].
+        all: destruct r2 as [|s2 r2]; [rewrite app_nil_r in Hr2; congruence|].
+        all: rewrite Hr2, getf_below_file by discriminate.
+        all: destruct (getf root (p ++ s2 :: r2)) as [v|] eqn:Gv; [|reflexivity].
+        all: assert (Hnn : s2 :: r2 <> []) by discriminate.
+        all: destruct (getf_ext_dir p root (s2 :: r2) v Gv Hnn) as [a1 [k1 L1]]; rewrite L1 in L; discriminate.
+  - (* GetObject *)
+    cbn [astep]. rewrite (surjective_pairing (step root (GetObject b key))).
+    assert (E : fst (step root (GetObject b key)) = root).
+    { cbn [step]. destruct (valid_object_name key); cbn [negb fst]; [|reflexivity]. destruct (bucket_ok root b); cbn [negb fst]; [|reflexivity].
+      destruct (lookp root (b :: segs key)) as [[bl a|a k]| |]; try reflexivity; destruct (ends_slash key); reflexivity. }
+    cbn [fst snd]. rewrite E. destruct (snd (step root (GetObject b key))); apply Hm.
+  - (* ListV2 *)
+    cbn [astep step]. destruct (lookp root [b]) as [[bl a|a k]| |]; cbn [fst snd]; try apply Hm.
+    destruct (walk _ _ _ _ _ _ _); cbn [fst snd]; apply Hm.
+Qed.
+
+(* ---------- histories *)
+Fixpoint run_abs (root : node) (m : amap) (ops : list op) : node * amap :=
+  match ops with
+  | [] => (root, m)
+  | o :: r => run_abs (fst (step root o)) (astep m o (snd (step root o))) r
+  end.
+
+Theorem history_refines_map : forall ops root m, forallb (fun o => negb (is_delete o)) ops = true ->
+  (forall q, m q = getf root q) ->
+  forall q, snd (run_abs root m ops) q = getf (fst (run_abs root m ops)) q.
+Proof.
+  induction ops as [|o r IH]; intros root m Hnd Hm q; [apply Hm|].
+  cbn [forallb] in Hnd. apply andb_true_iff in Hnd. destruct Hnd as [Ho Hr]. apply negb_true_iff in Ho.
+  cbn [run_abs]. apply IH; [exact Hr|]. apply abs_step; assumption.
+Qed.
+
+(* what a GetObject of a file key answers after any such history: the last acknowledged upload of that key, else what was there *)
+Theorem read_after_history : forall ops root m b key, forallb (fun o => negb (is_delete o)) ops = true ->
+  (forall q, m q = getf root q) -> ends_slash key = false ->
+  let root' := fst (run_abs root m ops) in
+  snd (step root' (GetObject b key)) =
+    if negb (valid_object_name key) then O_err InvalidURI else if negb (bucket_ok root' b) then O_err NoSuchBucket
+    else get_answer (snd (run_abs root m ops) (b :: segs key)).
+Proof.
+  intros ops root m b key Hnd Hm Hs. cbv zeta. rewrite get_file_key by exact Hs. rewrite (history_refines_map ops root m Hnd Hm). reflexivity.
+Qed.
